@@ -65,6 +65,7 @@ func runC11(p *core.Prog, r *core.Report) {
 	})
 	r.Guard("C11.R2", "setKV", "setKV effect", func() { checkSetKV(p, r, "baseStore.setKV", false) })
 	r.Guard("C11.R2", "setNewKV", "setNewKV effect", func() { checkSetKV(p, r, "baseStore.setNewKV", true) })
+	r.Guard("C11.R2", "retry-accumulators", "a retried download starts from nothing", func() { checkRetryAccumulatesNothing(p, r, "C11.R2") })
 	r.Guard("C11.R2", "PartialKV.Roll", "roll empties content and size together", func() {
 		fn := p.Func(pkgStore, "PartialKV.Roll")
 		r.Touch(core.FuncName(fn))
